@@ -90,6 +90,9 @@ func c04Gen(t *rapid.T) c04Case {
 		Other: rapid.SampledFrom(append([]string{"ecdsa-p256-0", "ecdsa-p256-1", "ecdsa-p256-0", "ed25519-3"}, hx.CheapPoolNames()...)).Draw(t, "other"),
 	}
 	c.Pad = rapid.SampledFrom([]int{0, 0, 0, 0, 0, 70000, 300000}).Draw(t, "pad")
+	if rapid.IntRange(0, 39).Draw(t, "hugepad") == 0 {
+		c.Pad = 1300000 // (a link that lists a vendored tree, a layout with a long readme: past a megabyte)
+	}
 	return c
 }
 
